@@ -92,6 +92,20 @@ class Collector:
             return self.unresolved(rule, construct, loc, what, detail_unrec, **kw)
         return self.check(ok, rule, construct, loc, what, detail_ok, detail_bad, **kw)
 
+    def guard(self, fn, *args, **kw):
+        """Run one part of a check; a vanished anchor inside it becomes an UNRESOLVED instance
+        (exit 2 unless another part reports a definite violation) instead of aborting the run."""
+        from .model import AnalysisError
+        try:
+            return fn(*args, **kw)
+        except AnalysisError as e:
+            self.rules.setdefault("R-ANCHOR", "every anchor (def, statement, idiom) a rule needs is present")
+            self.floors.setdefault("R-ANCHOR", 0)
+            self.ceilings.setdefault("R-ANCHOR", 0)
+            self.unresolved("R-ANCHOR", getattr(fn, "__module__", "?") + "." + getattr(fn, "__name__", "?"), "",
+                            "anchor present", str(e), stmt=str(e)[:80])
+            return None
+
     def check(self, cond: bool, rule, construct, loc, what, detail_ok="", detail_bad="", **kw):
         if cond:
             return self.ok(rule, construct, loc, what, detail_ok, **kw)
